@@ -53,9 +53,14 @@ def generate(seed, tier, index):
     world = rng.choice(["server", "server", "server", "clientconn"])
     steps = []
     for _ in range(rng.randint(1, 8 if thorough else 4)):
-        steps.append({"op": "burst", "n": rng.randint(1, 5), "same_iteration": rng.random() < 0.6})
-        if rng.random() < 0.6:
+        steps.append({"op": "burst", "n": rng.randint(1, 5), "same_iteration": rng.random() < 0.5, "between": rng.randint(1, 4)})
+        r = rng.random()
+        if r < 0.4:
             steps.append({"op": "gap", "dt": rng.choice([0.0, 0.0001, 0.001, 0.01, 1.0])})
+        elif r < 0.8:
+            # iteration-granular gap: the next burst is routed exactly k loop iterations later, i.e. possibly between
+            # a drain completing, a lock being released and the next queued sender resuming
+            steps.append({"op": "iters", "k": rng.randint(1, 8)})
     ntcp = rng.randint(1, 3)
     tty = rng.random() < 0.6
     targets = [f"tcp{i}" for i in range(ntcp)] + (["tty"] if tty else [])
@@ -145,6 +150,9 @@ def execute_server(scen, sim, viol, probes, facts):
             if st["op"] == "gap":
                 sim.run_for(st["dt"])
                 continue
+            if st["op"] == "iters":
+                sim.loop.step_iterations(st["k"])
+                continue
             if st["same_iteration"]:
                 def burst(n=st["n"]):
                     for _ in range(n):
@@ -156,7 +164,7 @@ def execute_server(scen, sim, viol, probes, facts):
             else:
                 for _ in range(st["n"]):
                     sim.do(one_update)
-                    sim.loop.drain(until=sim.loop.time())  # one or more loop iterations at the same instant
+                    sim.loop.step_iterations(st.get("between", 1))
             if st["n"] >= 2:
                 big += 1
         # progress: run to quiescence (a connection stalled for ever holds no timer, so quiescence is still reached);
@@ -233,6 +241,9 @@ def execute_clientconn(scen, sim, viol, probes, facts):
         if st["op"] == "gap":
             sim.run_for(st["dt"])
             continue
+        if st["op"] == "iters":
+            sim.loop.step_iterations(st["k"])
+            continue
         if st["same_iteration"]:
             def burst(n=st["n"]):
                 for _ in range(n):
@@ -241,7 +252,7 @@ def execute_clientconn(scen, sim, viol, probes, facts):
         else:
             for _ in range(st["n"]):
                 sim.do(one)
-                sim.loop.drain(until=sim.loop.time())
+                sim.loop.step_iterations(st.get("between", 1))
         if st["n"] >= 2:
             big += 1
     sim.settle()
